@@ -641,17 +641,38 @@ def validate_ply_colorama():
 	check_equal("LexToken(NAME,'abc',5,0)", str(next(iter(_feed(lexer, 'abc')))), 'LexToken str / iteration')
 	check_equal(5, lexer.lineno, 'input() does not reset lineno')
 
-	# t_error that does not skip raises LexError carrying the remaining text
+	# cppLexer on a character it has no rule for: its t_error either skips it (the tokens around it come out) or does not, and then
+	# PLY raises LexError carrying the remaining text (both are PLY behaviour; which one depends on the working tree)
 	lex.input('a $ b')
 	standard_output, sys.stdout = sys.stdout, io.StringIO()
 	try:
-		lex.token()
-		lex.token()
-		raise AssertionError('expected LexError')
+		seen = [lex.token().value, lex.token().value]
+		check_equal(['a', 'b'], seen, 'cppLexer t_error skips the unknown character')
 	except lex.LexError as ex:
 		check_equal('$ b', ex.text, 'LexError text')
 	finally:
 		sys.stdout = standard_output
+
+	# t_error that does not skip raises LexError carrying the remaining text
+	def no_skip_namespace():
+		tokens = ('WORD',)  # pylint: disable=possibly-unused-variable,unused-variable
+		t_ignore = ' '  # pylint: disable=possibly-unused-variable,unused-variable,invalid-name
+		t_WORD = r'[a-z]+'  # pylint: disable=possibly-unused-variable,unused-variable,invalid-name
+
+		def t_error(_tok):  # pylint: disable=possibly-unused-variable,unused-variable
+			pass
+
+		return lex.lex()
+
+	stubborn = no_skip_namespace()
+	stubborn.input('a $ b')
+	check_equal('a', stubborn.token().value, 'token before the unknown character')
+	try:
+		stubborn.token()
+		raise AssertionError('expected LexError')
+	except lex.LexError as ex:
+		check_equal('$ b', ex.text, 'LexError text')
+	lex.lexer = lexer
 
 	# lex() without arguments reads the caller's namespace; functions before strings; literals; ignore; skip in t_error
 	tokens = ('ID', 'EQ', 'EQEQ', 'NUM')  # pylint: disable=possibly-unused-variable
